@@ -6,11 +6,11 @@ A script is described by a dict
   elem = {"act": 0|1|2, "k": K, "start": [emit..], "in": [emit..], "end": [emit..]}
   emit = (peer, delay, id)
   mod  = {"mode": 0..3, "own": [elem..], "h": handler}
-  handler = {"stages": 0..3, "xkind": 0|1|2, "xa": .., "xb": .., "xc": .., "start": [...], "msg": [...], "end": [...], "task": [...]}
+  handler = {"stages": 0..3, "xkind": 0|1|2|3, "xa": .., "xb": .., "xc": .., "start": [...], "msg": [...], "end": [...], "task": [...]}
 """
 
 PASS, MODIFY, CONSUME = 0, 1, 2
-H_START, H_IN, H_END, H_HANDLE, H_SIMSTART, H_SIMEND, H_TASK, H_RESET, H_SCHED, H_SEND, H_SHUT = range(1, 12)
+H_START, H_IN, H_END, H_HANDLE, H_SIMSTART, H_SIMEND, H_TASK, H_RESET, H_SCHED, H_SEND, H_SHUT, H_PANIC = range(1, 13)
 CALL_HOOKS = {H_START, H_IN, H_END, H_HANDLE, H_SIMSTART, H_SIMEND, H_TASK}
 
 
@@ -95,7 +95,7 @@ def dec_elem(b):
 
 def dec_handler(b):
     c = Cur(b)
-    h = {"stages": c.next() % 4, "xkind": c.next() % 3, "xa": c.next(), "xb": c.next(), "xc": c.next()}
+    h = {"stages": c.next() % 4, "xkind": c.next() % 4, "xa": c.next(), "xb": c.next(), "xc": c.next()}
     for f in ("start", "msg", "end", "task"):
         h[f] = triples(c.take_lp())
     return h
@@ -153,7 +153,7 @@ def entries(out):
 
 ACT = {0: "pass", 1: "mod", 2: "consume"}
 HOOK = {1: "start", 2: "in", 3: "end", 4: "handle", 5: "sim_start", 6: "sim_end", 7: "task", 8: "reset", 9: "schedule_in",
-        10: "send_in", 11: "shutdown"}
+        10: "send_in", 11: "shutdown", 12: "panic"}
 
 
 def pretty_elem(e):
@@ -169,7 +169,8 @@ def pretty(script):
     s = "budget=%d global=[%s]" % (d["budget"], "; ".join(pretty_elem(e) for e in d["global"]))
     for m, mod in enumerate(d["mods"]):
         h = mod["h"]
-        x = {0: "", 1: " timer(%d)" % (h["xa"] + 1), 2: " shutdown(on %d%s)" % (h["xa"], ", restart in %d" % h["xc"] if h["xb"] % 2 else "")}[h["xkind"]]
+        x = {0: "", 1: " timer(%d)" % (h["xa"] + 1), 2: " shutdown(on %d%s)" % (h["xa"], ", restart in %d" % h["xc"] if h["xb"] % 2 else ""),
+             3: " caught-panic(%s)" % {0: "handle_message of %d" % h["xa"], 1: "at_sim_start(%d)" % h["xa"], 2: "at_sim_end"}[h["xb"] % 3]}[h["xkind"]]
         em = " ".join("%s!%d" % (f, len(h[f])) for f in ("start", "msg", "end", "task") if h[f])
         s += " | mod%d mode=%d own=[%s] stages=%d%s %s" % (m, mod["mode"], "; ".join(pretty_elem(e) for e in mod["own"]), h["stages"], x, em)
     s += " | inject " + " ".join("%s->%d@%d(id%d)" % ("direct" if k else "port", dst, t, x) for k, dst, t, x in d["inj"])
